@@ -175,8 +175,7 @@ func arithOracle(op string, l, r operand) accept {
 			if tq.Num().IsInt64() {
 				a.vals = append(a.vals, tq)
 				if exact.IsInt() {
-					a.intOnly = true
-					return a
+					return a // (an exact quotient may be computed as a double: 6 / 2 = 3.0 is accepted)
 				}
 				if f, ok := nearest(exact); ok {
 					a.vals = append(a.vals, ratOfFloat(f))
